@@ -578,7 +578,7 @@ func directedHistories() []History {
 	}
 	approve := ok(Step{Server: "serve", Version: 1, Yes: true})
 	approveTty := ok(Step{Server: "serve", Version: 1, Answer: "ttyyes"})
-	return []History{
+	hs := []History{
 		{Via: "include", Steps: []Step{approve, ok(Step{Server: "down"})}},
 		{Via: "include", Steps: []Step{approveTty, ok(Step{Server: "refuse", Download: true, ExpirySec: 3600})}},
 		{Via: "root", Steps: []Step{approve, ok(Step{Server: "down"}), ok(Step{Server: "down", ExpirySec: 3600}), ok(Step{Server: "down", Offline: true})}},
@@ -598,6 +598,44 @@ func directedHistories() []History {
 		{Via: "include", Steps: []Step{ok(Step{Server: "serve", Version: 1}), ok(Step{Server: "serve", Version: 1, Answer: "ttyno"}),
 			ok(Step{Server: "status", Status: 404, Yes: true}), ok(Step{Server: "slow", DelayMs: 150, Version: 1, Answer: "ttyyes"})}},
 	}
+	// An unapproved invocation on NEW or CHANGED content (exit 104) followed by every way
+	// of reading the cache without asking: --offline (flag / TASK_OFFLINE), a copy still
+	// fresh under --expiry, server down / refusing / slower than --timeout (fallback).
+	// Nothing but the approved version may run afterwards (and nothing at all if none was).
+	readers := []Step{
+		ok(Step{Server: "serve", Version: 2, Offline: true}),
+		ok(Step{Server: "down", Offline: true, OffEnv: true}),
+		ok(Step{Server: "serve", Version: 2, ExpirySec: 3600}),
+		ok(Step{Server: "down"}),
+		ok(Step{Server: "refuse", ExpirySec: 3600}),
+		ok(Step{Server: "slow", DelayMs: 1500, TimeoutMs: 400, Version: 2}),
+		ok(Step{Server: "down", Download: true, ExpirySec: 3600}),
+	}
+	declines := []Step{
+		ok(Step{Server: "serve", Version: 2}),                                  // no terminal
+		ok(Step{Server: "serve", Version: 2, Answer: "ttyno"}),                 // n on the terminal
+		ok(Step{Server: "serve", Version: 2, Download: true, ExpirySec: 3600}), // forced re-download of a fresh copy, declined
+	}
+	approvals := []Step{
+		ok(Step{Server: "serve", Version: 1, Yes: true, ExpirySec: 3600}),
+		ok(Step{Server: "serve", Version: 1, Answer: "ttyyes"}),
+	}
+	var out2 []History
+	n := 0
+	for _, rd := range readers {
+		for di, d := range declines {
+			a := approvals[n%len(approvals)]
+			via := []string{"include", "root"}[n%2]
+			n++
+			// approve v1; decline v2; read the cache; and once more --offline at the end
+			out2 = append(out2, History{Via: via, Steps: []Step{a, d, rd, ok(Step{Server: "serve", Version: 2, Offline: true})}})
+			if di == 0 {
+				// first-ever download declined, then the cache readers: nothing may run (106 / 103 / 108 / 104)
+				out2 = append(out2, History{Via: via, Steps: []Step{d, rd, ok(Step{Server: "down", Offline: true})}})
+			}
+		}
+	}
+	return append(hs, out2...)
 }
 
 // small-scope enumeration (thorough tier): all histories of length <= 3 over
@@ -687,7 +725,16 @@ func invCoq(st *Step, now int) string {
 		cg.Bool(st.Clear), st.ExpirySec, cg.Bool(st.Insecure), to, ans, now)
 }
 
-func stepCoq(h *History, st *Step, o *StepObs) string {
+// beforeCoq renders the inputs of the steps before k: [(server, inv); ...]
+func beforeCoq(h *History, k int) string {
+	items := make([]string, k)
+	for j := 0; j < k; j++ {
+		items[j] = "(" + serverCoq(&h.Steps[j]) + ", " + invCoq(&h.Steps[j], logicalNow(h, j)) + ")"
+	}
+	return cg.List(items)
+}
+
+func stepCoq(h *History, k int, st *Step, o *StepObs) string {
 	ran := make([]string, len(o.Ran))
 	for i, v := range o.Ran {
 		ran[i] = fmt.Sprint(v)
@@ -696,7 +743,7 @@ func stepCoq(h *History, st *Step, o *StepObs) string {
 	if exit < 0 {
 		exit = 999
 	}
-	return fmt.Sprintf("{| rs_http := %s; rs_obs := mkObs %s %s %s %d %s %s |}", cg.Bool(!h.HTTPS), cacheCoq(o.Pre), serverCoq(st), invCoq(st, o.Now),
+	return fmt.Sprintf("{| rs_http := %s; rs_before := %s; rs_obs := mkObs %s %s %s %d %s %s |}", cg.Bool(!h.HTTPS), beforeCoq(h, k), cacheCoq(o.Pre), serverCoq(st), invCoq(st, o.Now),
 		exit, cg.List(ran), cacheCoq(o.Post))
 }
 
@@ -716,7 +763,7 @@ func cacheClass(c CacheObs) string {
 
 // ---------- main ----------
 
-var resultNames = []string{"R_agree", "R_only_approved", "R_unapproved", "R_keeps", "R_http"}
+var resultNames = []string{"R_agree", "R_only_approved", "R_ran_approved", "R_guarded", "R_unapproved", "R_keeps", "R_http"}
 
 func Main(argv []string) {
 	o := common.ParseOpts(argv)
@@ -828,7 +875,7 @@ func Main(argv []string) {
 		for k := range rs.obs {
 			st := &h.Steps[k]
 			so := &rs.obs[k]
-			line := stepCoq(h, st, so)
+			line := stepCoq(h, k, st, so)
 			obs.Counters["invocations"]++
 			srvKind := st.Server
 			if st.Server == "slow" {
@@ -899,6 +946,8 @@ func Main(argv []string) {
 	sb.WriteString("Close Scope N_scope.\n")
 	sb.WriteString("Definition R_agree := Eval vm_compute in failures (rstep_agree current_variant) steps.\nPrint R_agree.\n")
 	sb.WriteString("Definition R_only_approved := Eval vm_compute in failures rstep_only_approved steps.\nPrint R_only_approved.\n")
+	sb.WriteString("Definition R_ran_approved := Eval vm_compute in failures rstep_ran_approved steps.\nPrint R_ran_approved.\n")
+	sb.WriteString("Definition R_guarded := Eval vm_compute in failures rstep_guarded steps.\nPrint R_guarded.\n")
 	sb.WriteString("Definition R_unapproved := Eval vm_compute in failures rstep_unapproved steps.\nPrint R_unapproved.\n")
 	sb.WriteString("Definition R_keeps := Eval vm_compute in failures rstep_keeps steps.\nPrint R_keeps.\n")
 	sb.WriteString("Definition R_http := Eval vm_compute in failures rstep_http steps.\nPrint R_http.\n")
